@@ -68,6 +68,7 @@ func NewInterp(prog *ssa.Program, ctx *Ctx) *Interp {
 	in.installStubs5()
 	in.installStubs6()
 	in.installStubs7()
+	in.installStubs8()
 	return in
 }
 
